@@ -88,6 +88,8 @@ func stackVariants(full bool) []struct {
 		{"g(1,p1)", one("main.g", FILE, 10, Sc(1), Sc(p1))},
 		{"f(1,p1)@11", one(F, FILE, 11, Sc(1), Sc(p1))},
 		{"f(1,p1)@other.go", one(F, "/src/app/other.go", 10, Sc(1), Sc(p1))},
+		// same directory and file name under another root (a vendored copy, a second checkout)
+		{"f(1,p1)@otherroot", one(F, "/other/checkout/src/app/main.go", 10, Sc(1), Sc(p1))},
 		{"f(_,p1)", one(F, FILE, 10, TooLarge(), Sc(p1))},
 		{"f(0,p1)", one(F, FILE, 10, Sc(0), Sc(p1))}, // differs from f(_,p1) only by the too-large marker
 		{"f(1,p1)+h(3)", stack.Stack{Calls: []stack.Call{MkCall(F, FILE, 10, 0, stack.Args{Values: []stack.Arg{Sc(1), Sc(p1)}}), MkCall("main.h", FILE, 20, 0, stack.Args{Values: []stack.Arg{Sc(3)}})}}},
@@ -140,6 +142,7 @@ func Universe(size string) []SnapVariant {
 		creators = append(creators,
 			stack.Stack{Calls: []stack.Call{MkCall("main.spawnA", "/src/app/spawn.go", 31, 0, stack.Args{})}},
 			stack.Stack{Calls: []stack.Call{MkCall("main.spawnA", "/src/app/spawn2.go", 30, 0, stack.Args{})}},
+			stack.Stack{Calls: []stack.Call{MkCall("main.spawnA", "/other/checkout/src/app/spawn.go", 30, 0, stack.Args{})}},
 		)
 	}
 	stacks := stackVariants(full)
@@ -153,7 +156,7 @@ func Universe(size string) []SnapVariant {
 							// a star, not a product: every stack variant in the base context (so that any two of them
 							// meet with everything else equal), every context with a few representative stacks
 							base := si == 0 && li == 0 && sli == 0 && ci == 0
-							rep := ki == 0 || ki == 1 || ki == 2 || ki == 3 || sv.desc == "g(1,p1)"
+							rep := ki == 0 || ki == 1 || ki == 2 || ki == 3 || sv.desc == "g(1,p1)" || sv.desc == "f(1,p1) elided-frames"
 							if !base && !rep {
 								continue
 							}
